@@ -1,6 +1,9 @@
 mod cfgbuild;
 mod fanout;
+mod fixedwindow;
+mod fsutil;
 mod levelgate;
+mod rolling;
 mod routing;
 mod util;
 
@@ -15,6 +18,8 @@ fn main() {
         "routing" => routing::main(rest),
         "cfgbuild" => cfgbuild::main(rest),
         "fanout" => fanout::main(rest),
+        "rolling" => rolling::main(rest),
+        "fixedwindow" => fixedwindow::main(rest),
         "levelgate" => levelgate::main(rest),
         other => {
             eprintln!("unknown command {}", other);
